@@ -154,7 +154,7 @@ impl Scenario for C17Encodings {
             let nf = cx.tape.draw(3);
             for _ in 0..nf {
                 let f = match cx.tape.draw(3) {
-                    0 => (1usize, Fault::MetaSize(cx.tape.draw(4) as u8)),
+                    0 => (1usize, Fault::MetaSize(cx.tape.draw(5) as u8)),
                     1 => (2 + cx.tape.draw(6) as usize, Fault::ReadShort(1 + cx.tape.draw(7) as usize)),
                     _ => (2 + cx.tape.draw(6) as usize, Fault::ReadEintr),
                 };
